@@ -72,6 +72,8 @@ pub assume_specification[ String::truncate ](s: &mut String, new_len: usize)
 pub broadcast axiom fn axiom_ascii_suffix_one_byte(s: Seq<char>, c: char)
     requires #[trigger] is_suffix(seq![c], s), (c as u32) < 128,
     ensures encode_utf8(s.drop_last()).len() == encode_utf8(s).len() - 1;
+// mem::drop: "Disposes of a value." (no effect on anything else)
+pub assume_specification<T>[ core::mem::drop::<T> ](x: T);
 // cmp::min / cmp::max: "Compares and returns the minimum/maximum of two values."
 pub assume_specification<T: Ord>[ std::cmp::min::<T> ](a: T, b: T) -> (r: T)
     ensures r == if ord_le(a, b) { a } else { b };
